@@ -362,6 +362,12 @@ def run_trading(rnd, S, cfgk, intensity=1.0, script=None, analyser=False, ids=No
                         call.update(api="order_shares", args=(oid, q, None))
                         return api.order_shares(oid, q)
                     out.append(f5)
+
+                    def f5b(call, before, oid=oid):
+                        # ... then a value-based sale far larger than the holding: capped at the closable part, which (T+1) is the odd lot
+                        call.update(api="order_value", args=(oid, -10000000.0, None))
+                        return api.order_value(oid, -10000000.0)
+                    out.append(f5b)
         # a holding bought shortly before its share conversion (so that it is still there when the predecessor delists)
         if S["trf"] and phase == "BAR" and "STOCK" in context.portfolio.accounts and reseed_key is None:
             for pred in S["trf"]:
